@@ -30,6 +30,9 @@ POOLS = {
 }
 
 
+LIFE_CONFORMANCE_POOLS = ("general", "members", "life", "hand", "fault", "tlc-schedules")
+
+
 def tree_digest():
     h = hashlib.sha1()
     for root in (REPO, os.path.join(VERIF, "harness", "cmd"), os.path.join(VERIF, "spec"), os.path.join(VERIF, "tools")):
@@ -239,6 +242,13 @@ def family(tier):
         tr = tlc_trace("TableTrace.tla", "TableTrace.cfg", path, timeout=3000, parts=14, by_trace=True)
         res[name] = {"file": path, "summary": summ, "crashed": [c[1] for c in crashed], "lines": tr["lines"],
                      "viol": tr["viol"], "drive_tlc_wall_s": round(time.time() - t0, 1)}
+        if name in LIFE_CONFORMANCE_POOLS:
+            # code -> spec: the recorded life-cycle events replayed through TableLife's own actions (DRIFT = model and code disagree)
+            lt = tlc_trace("TableLifeTrace.tla", "TableLifeTrace.cfg", path, timeout=3000, parts=8, by_trace=True)
+            res[name]["life_drift"] = [[k, list(r)] for k, r in lt["drift"]][:50]
+            res[name]["life_drift_n"] = len(lt["drift"])
+            if lt["drift"]:
+                log("DRIFT TableLife vs pool %s: %d scenario(s), e.g. line %s" % (name, len(lt["drift"]), lt["drift"][0]))
     t0 = time.time()
     path, summ = run_hand_dfs(tier, cdir)
     tr = tlc_trace("HandTrace.tla", "HandTrace.cfg", path, timeout=3000, parts=14)
@@ -257,6 +267,10 @@ def route_family(ck, prefixes, fam):
         ck.cov.setdefault("pools", []).append({"pool": name, "scenarios": r["summary"].get("scenarios", 0), "lines": r["lines"],
                                                "stuck": r["summary"].get("stuck", 0), "crashed_workers": len(r["crashed"]), "wall_s": r["drive_tlc_wall_s"]})
         ck.route(prefixes, {"viol": [tuple(v) for v in r["viol"]]}, r["file"], "vh table pool " + name)
+        if "life_drift_n" in r:
+            lc = ck.cov.setdefault("lifecycle_conformance", {"scenarios_replayed_through_TableLife": 0, "drift": 0})
+            lc["scenarios_replayed_through_TableLife"] += r["summary"].get("scenarios", 0)
+            lc["drift"] += r["life_drift_n"]
         if r["crashed"] and not any(v[0] == "C03_noPanic" for v in r["viol"]):
             raise Inconclusive("a driver worker died without a recorded crash line: " + r["crashed"][0][:500])
 
@@ -279,7 +293,7 @@ def sample_lines(path, want=2):
 
 TABLE_PROPS = {
  "C01": (["C01_"], []),  # incl. C01_hand* clauses judged on the real backend's transition system
- "C02": (["C02_"], []),
+ "C02": (["C02_", "C01_settleCredit"], []),   # "entry i's result is credited to that player and nobody else" is the settlement-credit clause
  "C03": (["C03_"], ["sm"]),
  "C05": (["C05_"], ["sm"]),
  "C06": (["C06_"], []),
